@@ -140,6 +140,7 @@ class Hist(object):
                 for r in rows:
                     chk_dict(r)
                     l.append(r)
+            before_len = len(l)
             if kind == 'extend':
                 # op[2] == 'iter': a one-shot iterable, as list.extend accepts
                 arg = iter(rows) if (len(op) > 2 and op[2] == 'iter') else rows
@@ -150,6 +151,11 @@ class Hist(object):
                     if r is not g:
                         raise AssertionError('+= did not return the grid')
                 real, model = both(ri, me)
+            if real[0] == 'raises' and model[0] == 'raises' and before_len <= len(g) <= len(l):
+                # a refused multi-row extend: the property fixes the outcome of refused single-row operations only, so
+                # the rows in front of the refused one may have been added (what a list fed one by one does) or not
+                # (all-or-nothing); the model follows the grid, the invariants then compare row by row
+                del l[len(g):]
         elif kind == 'del':
             real, model = both(lambda: g.__delitem__(op[1]), lambda: l.__delitem__(op[1]))
             self.flags.add('delete')
